@@ -17,6 +17,7 @@ import (
 	"flag"
 	"fmt"
 	"io"
+	"math"
 	"os"
 	"regexp"
 	"sort"
@@ -329,12 +330,15 @@ type textObj struct {
 	Size     string
 	TJ       []tjEl
 	OddBytes bool
+	Pos      [6]float64 // text matrix a b c d e f at the first TJ
+	HasPos   bool
 }
 
 // parseContent extracts the text objects of a page content stream
 func parseContent(b []byte) ([]textObj, error) {
 	var objs []textObj
 	var cur *textObj
+	tm := [6]float64{1, 0, 0, 1, 0, 0}
 	var stack []string
 	var arr []tjEl
 	inArr := false
@@ -414,6 +418,19 @@ func parseContent(b []byte) ([]textObj, error) {
 				}
 				objs = append(objs, textObj{FontName: prev.FontName, Size: prev.Size})
 				cur = &objs[len(objs)-1]
+				tm = [6]float64{1, 0, 0, 1, 0, 0}
+			case "Tm":
+				if len(stack) >= 6 {
+					for k := 0; k < 6; k++ {
+						tm[k], _ = strconv.ParseFloat(stack[len(stack)-6+k], 64)
+					}
+				}
+			case "Td":
+				if len(stack) >= 2 {
+					tx, _ := strconv.ParseFloat(stack[len(stack)-2], 64)
+					ty, _ := strconv.ParseFloat(stack[len(stack)-1], 64)
+					tm[4], tm[5] = tm[0]*tx+tm[2]*ty+tm[4], tm[1]*tx+tm[3]*ty+tm[5]
+				}
 			case "ET":
 				cur = nil
 			case "Tf":
@@ -423,6 +440,9 @@ func parseContent(b []byte) ([]textObj, error) {
 				}
 			case "TJ":
 				if cur != nil {
+					if !cur.HasPos {
+						cur.Pos, cur.HasPos = tm, true
+					}
 					cur.TJ = append(cur.TJ, arr...)
 				}
 			}
@@ -446,6 +466,9 @@ type spanRec struct {
 	Glyphs   []glyphRec
 	Font     *canvas.Font
 	Size     float64
+	// expected text matrix of the span's text object (a b c d e f), when known
+	Want    [6]float64
+	HasWant bool
 }
 
 func spansOf(t *canvas.Text) []spanRec {
@@ -456,6 +479,10 @@ func spansOf(t *canvas.Text) []spanRec {
 		}
 		sr := spanRec{Font: span.Face.Font, Size: span.Face.Size}
 		sr.Vertical = span.Direction == canvasText.TopToBottom || span.Direction == canvasText.BottomToTop
+		if !sr.Vertical && t.WritingMode == canvas.HorizontalTB {
+			// placement relative to the text's own origin: Translate(x, y) . Shear(fauxItalic, 0); the draw position is added by the caller
+			sr.Want, sr.HasWant = [6]float64{1, 0, span.Face.FauxItalic, 1, x, y}, true
+		}
 		for _, g := range span.Glyphs {
 			if t.WritingMode == canvas.HorizontalTB || !g.Vertical {
 				sr.Glyphs = append(sr.Glyphs, glyphRec{int(g.ID), int(span.Face.Font.SFNT.GlyphAdvance(g.ID)), int(g.XAdvance)})
@@ -675,7 +702,18 @@ func emitDoc(o *out.W, i int, fam string, fi *fontInfo, subset bool, pdfBytes []
 		if ok {
 			fk = fidx[fr]
 		}
-		tS = append(tS, fmt.Sprintf("(mkT %s %s %s %s %s)", cq.Z(int64(fk)), cq.Bool(spans[k].Vertical), cq.Bool(t.OddBytes), cq.List(els), cq.List(gs)))
+		posBad := false
+		if spans[k].HasWant && t.HasPos {
+			for q := 0; q < 6; q++ {
+				if math.Abs(t.Pos[q]-spans[k].Want[q]) > 1e-6*(1+math.Abs(spans[k].Want[q])) {
+					posBad = true
+				}
+			}
+			if posBad {
+				desc["text_position"] = fmt.Sprintf("text object %d starts with the text matrix %v, the span is placed at %v", k, t.Pos, spans[k].Want)
+			}
+		}
+		tS = append(tS, fmt.Sprintf("(mkT %s %s %s %s %s %s)", cq.Z(int64(fk)), cq.Bool(spans[k].Vertical), cq.Bool(t.OddBytes), cq.List(els), cq.List(gs), cq.Bool(posBad)))
 	}
 	term := fmt.Sprintf("KDoc %s %s %s %s %s %s", cq.Z(int64(fi.upem)), cq.Bool(subset), zs(hist), cq.List(tabS), cq.List(fS), cq.List(tS))
 	desc["W"] = func() []string {
@@ -858,7 +896,7 @@ func genDoc(o *out.W, i int, r *rng.R, fonts []*fontInfo, fam string) {
 	fi := rng.Pick(r, fonts)
 	subset := r.Bool()
 	size := rng.Pick(r, []float64{8, 10, 12, 12, 18, 24})
-	face := fi.fam.Face(size, canvas.Black, canvas.FontRegular, canvas.FontNormal)
+	face := fi.fam.Face(size, canvas.Black, rng.Pick(r, []canvas.FontStyle{canvas.FontRegular, canvas.FontRegular, canvas.FontItalic, canvas.FontBold | canvas.FontItalic}), canvas.FontNormal)
 	var texts []*canvas.Text
 	var strs []string
 	vert := func(s string) *canvas.Text {
@@ -899,8 +937,12 @@ func genDoc(o *out.W, i int, r *rng.R, fonts []*fontInfo, fam string) {
 		texts = append(texts, canvas.NewTextLine(face, s, canvas.Left))
 	}
 	var spans []spanRec
-	for _, t := range texts {
-		spans = append(spans, spansOf(t)...)
+	for k, t := range texts {
+		for _, sr := range spansOf(t) {
+			sr.Want[4] += 20
+			sr.Want[5] += 380 - float64(k)*30
+			spans = append(spans, sr)
+		}
 	}
 	b, msg := render(subset, func(ctx *canvas.Context) {
 		for k, t := range texts {
